@@ -125,14 +125,15 @@ Print Assumptions C04_fma_nan_iff.
 
 (* FMA on canonical operands never panics with anything else; for finite x, y, u under the
    preconditions of C03 (exact product within the exponent range, else known finding K3;
-   digit span of the final addition within the uint32 arithmetic) *)
+   digit span of the final addition within the uint32 arithmetic: `fma_span`, L3/FmaProofs.v,
+   = max(digits x + digits y, digits u) + distance of the lowest digit positions) *)
 Theorem C04_fma_no_other_panic : forall zu z x y u,
   WF x -> WF y -> WF u -> 0 <= prec z <= MaxPrec -> (zu = true -> z = u) ->
   (dform u = Ffinite -> mdigits (mant u) < 4294967296 - 18) ->
   (dform x = Ffinite -> dform y = Ffinite -> mdigits (mant x) + mdigits (mant y) < 4294967296 - 18) ->
   (dform x = Ffinite -> dform y = Ffinite -> dform u = Ffinite ->
      (scaled 1 (MinExp - 1) <= mag x * mag y)%Q /\ (mag x * mag y < scaled 1 MaxExp)%Q /\
-     (forall p', WF p' -> dform p' = Ffinite -> (mag p' == mag x * mag y)%Q -> add_span p' u + 40 < 4294967296 - 18)) ->
+     fma_span x y u + 58 < 4294967296 - 18) ->
   FMA zu z x y u <> CrashR.
 Proof. exact FMA_no_crash. Qed.
 Print Assumptions C04_fma_no_other_panic.
